@@ -73,6 +73,9 @@ def check_names(ctx, out):
             continue
         det = ctx.facts.bodies[info["detect"]]
         dkeys = attr_keys(ctx, ctx.facts.with_descendants(det))
+        if info.get("by_model"):
+            # a detector resolved by walking the code (data-driven / generic): the keys it asked for on that walk
+            dkeys = list(info.get("detect_keys") or [])
         if set(dkeys) == {name}:
             n += 1
         else:
